@@ -64,7 +64,21 @@ func c09Scenario(seed uint64) *core.Scenario {
 	return sc
 }
 
+// c09KeepLH: what the library-history arm of C09 judges - the first sentence of the property
+// ("NewKnowledgeBaseInstance succeeds for every successfully built or loaded knowledge base").
+func c09KeepLH(oracle string) bool {
+	return oracle == "C09.instantiate-failed" || oracle == "C09.probe-panicked"
+}
+
 func runC09(c *Check, seed uint64, i int, tier string, st *core.Stats) {
+	if i%4 == 3 {
+		// library-history arm: whatever the history of builds (accepted and rejected), removals, stores and
+		// loads, every knowledge base of every library can be instantiated after every operation
+		hs := lhScenario("C17", RunSeed(seed, "C09-library-history", i))
+		hs.Property = "C09"
+		st.Probes["library-history-arm.histories"]++
+		runLHScenario(c, hs, i, st, c09KeepLH)
+	}
 	rs := RunSeed(seed, c.ID, i)
 	sc := c09Scenario(rs)
 	res := ksim.Run(sc)
@@ -258,6 +272,15 @@ func shrinkK(sc *core.Scenario, first *ksim.Result, v core.Violation, st *core.S
 }
 
 func replayC09(c *Check, sc *core.Scenario) []core.Violation {
+	if sc.Sim == "H" { // library-history arm
+		var out []core.Violation
+		for _, v := range replayLH(c, sc) {
+			if v.Property == "HARNESS" || c09KeepLH(v.Oracle) {
+				out = append(out, v)
+			}
+		}
+		return out
+	}
 	res := ksim.Run(sc)
 	if res.Harness != "" {
 		return []core.Violation{{Oracle: "HARNESS", Property: "HARNESS", Message: res.Harness}}
@@ -267,7 +290,7 @@ func replayC09(c *Check, sc *core.Scenario) []core.Violation {
 
 func init() {
 	Register(&Check{ID: "C09", Level: "exploration", Sim: "K", Runs: map[string]int{"quick": 3000, "thorough": 40000},
-		Rule: "2-4 tasks, each creating 1-2 instances from one library (built or GRB-loaded, possibly with a removed rule) and executing/fetching/removing on its own facts; the interleaving at every yield point (node-id draw inside Clone, hooked loop element, seam event) is drawn from a seeded scheduler with run-length styles {every yield, 70%, 95%, 99% stay}; distinct = hash of the (task, site) yield sequence; non-trivial = at least one context switch between tasks",
+		Rule: "2-4 tasks, each creating 1-2 instances from one library (built or GRB-loaded, possibly with a removed rule) and executing/fetching/removing on its own facts; the interleaving at every yield point (node-id draw inside Clone, hooked loop element, seam event) is drawn from a seeded scheduler with run-length styles {every yield, 70%, 95%, 99% stay}; distinct = hash of the (task, site) yield sequence; non-trivial = at least one context switch between tasks. Library-history arm (every fourth run index): a history of builds (accepted, rejected, reader-failed), removals, stores and loads as in C17, after every operation of which every knowledge base of every library must be instantiable (oracles instantiate-failed, probe-panicked only)",
 		Assumptions: []string{"interleaving happens at seam and hook points, not between arbitrary instructions: a same-value race or an unsynchronised global that never changes a result is invisible to the simulation",
 			"per-task results are compared with the same script run alone on an identically built library; divergences from the reference model that already occur alone belong to other properties"},
 		RealVsStub: realVsStubK, Run: runC09, Replay: replayC09,
